@@ -330,7 +330,12 @@ def run(tier, seed, replay):
                 "real compute_dynamics on the real PT-TEMPO MPO vs mpoRecord, and the hypothesis of "
                 "mpo_dynamics_eq_tempo — dense form of the real MPO (closed with its cap) equals the "
                 "influence functional built from the real influence_matrix tables — on 24 sampled "
-                "index paths per case; all to 1e-8 with epsrel=1e-13.")
+                "index paths per case; all to 1e-8 with epsrel=1e-13.  Forced shapes: fractional additional "
+                "correlation time beyond the cut-off, repeated eigenvalue / non-diagonal coupling with "
+                "unique=True, pulsed system.  Each table the Tempo object hands to its backend is compared "
+                "bit for bit with influence_matrix.  Always-run relations: file-backed process tensors "
+                "with complex transforms vs TEMPO, long runs beyond the cut-off, homogeneity in the "
+                "initial state.")
     res.assumptions = ["SVD truncation at epsrel=1e-13 is negligible against 1e-8",
                        "the hypothesis hPT is checked on sampled paths, not proved for the MPO "
                        "construction algorithm (PT-TEMPO's compression is not modelled)"]
